@@ -309,6 +309,11 @@ const fileAlphabet = "abcXYZ019._-/ \t#[]()%\xc3\xa9"
 
 func genFile(rng *rand.Rand, gid int64) string {
 	var f string
+	if rng.Intn(14) == 0 {
+		// a long path: the header alone is well over a hundred bytes
+		f = strings.Repeat("some dir/", 8+rng.Intn(14)) + "file.go"
+		return f[rng.Intn(9):]
+	}
 	if rng.Intn(2) == 0 {
 		f = fileTemplates[rng.Intn(len(fileTemplates))]
 	} else {
@@ -806,9 +811,28 @@ func runHist(rng *rand.Rand, kind string, cal calib, seq *int, gcOnly, reopen bo
 	defer atomic.StoreInt64(&log.LogFileMaxSize, oldMax)
 	defer atomic.StoreInt64(&log.LogFilesCombinedMaxSize, oldComb)
 
+	// another user name (periods, backslashes: they must not reach the file
+	// names) and the machine's name with a domain; the main logger's file
+	// threshold raised before a secondary logger is created (its own stays INFO)
+	hostNow, userNow := log.VerifHostUser()
+	note := ""
+	if rng.Intn(3) == 0 {
+		u := []string{"jane.doe", "dom\\jane", "a.b.c", "x.", ".y", "first.last\\z", userNow}[rng.Intn(7)]
+		restore := log.VerifSetHostUser(hostNow+[]string{".example.org", ".lan", ""}[rng.Intn(3)], u)
+		defer restore()
+		note = fmt.Sprintf("user %q", u)
+	}
+	if kind == "secondary" && rng.Intn(2) == 0 {
+		th := []string{"WARNING", "ERROR", "FATAL", "3"}[rng.Intn(4)]
+		if err := flag.Set("log-file-verbosity", th); err != nil {
+			panic(err)
+		}
+		defer flag.Set("log-file-verbosity", "INFO")
+		note += " main logger's file threshold " + th
+	}
 	r := newRunner(kind, seq)
 	defer r.close()
-	hc := histCase{Logger: kind, H: cal.h}
+	hc := histCase{Logger: kind, H: cal.h, Note: strings.TrimSpace(note)}
 
 	maxChoices := []int64{64, 128, 300, cal.h - 10, cal.h + 1, cal.h + cal.overhead + 12, cal.h + cal.overhead + 60,
 		cal.h + 200, 1024, 2048, 4096}
@@ -862,18 +886,19 @@ func runHist(rng *rand.Rand, kind string, cal calib, seq *int, gcOnly, reopen bo
 		}
 		pf.Size = int64(len(content))
 		parts := strings.Split(r.vl.FileName(st), ".")
-		if len(parts) != 6 {
-			panic("unexpected log file name " + strings.Join(parts, "."))
+		if len(parts) == 6 {
+			if pf.Host != "" {
+				parts[1] = pf.Host
+			}
+			if pf.User != "" {
+				parts[2] = pf.User
+			}
+			pf.Host, pf.User = parts[1], parts[2]
+			pf.Pid = otherPid(rng, parts[4])
+			parts[4] = pf.Pid
 		}
-		if pf.Host != "" {
-			parts[1] = pf.Host
-		}
-		if pf.User != "" {
-			parts[2] = pf.User
-		}
-		pf.Host, pf.User = parts[1], parts[2]
-		pf.Pid = otherPid(rng, parts[4])
-		parts[4] = pf.Pid
+		// (a generated name that does not have six fields is left as it is: the
+		// logger itself will not find its files, which the read-back reports)
 		pf.Name = strings.Join(parts, ".")
 		if err := ioutil.WriteFile(filepath.Join(r.dir, pf.Name), content, 0644); err != nil {
 			panic(err)
@@ -1118,6 +1143,12 @@ func runOwnDir(rng *rand.Rand, cal calib, seq *int) ([]histCase, bool) {
 	n := 1 + rng.Intn(2)
 	var rs []*runner
 	var hcs []histCase
+	if rng.Intn(2) == 0 {
+		if err := flag.Set("log-file-verbosity", []string{"WARNING", "ERROR"}[rng.Intn(2)]); err != nil {
+			panic(err)
+		}
+		defer flag.Set("log-file-verbosity", "INFO")
+	}
 	maxChoices := []int64{300, cal.h + cal.overhead + 40, cal.h + 250, 2048, 1 << 20}
 	curMax := maxChoices[rng.Intn(len(maxChoices))]
 	atomic.StoreInt64(&log.LogFileMaxSize, curMax)
@@ -1154,11 +1185,11 @@ func runOwnDir(rng *rand.Rand, cal calib, seq *int) ([]histCase, bool) {
 			if !info.Mode().IsRegular() {
 				continue
 			}
-			det, err := log.ParseLogFilename(info.Name())
-			if err != nil || det.Program != prog {
+			fprog, unix, okName := parseName(info.Name())
+			if !okName || fprog != prog {
 				panic("unexpected file in a logger's own directory: " + info.Name())
 			}
-			sf := snapFile{Stamp: det.Time / 1e9, Size: info.Size(), Name: info.Name()}
+			sf := snapFile{Stamp: unix, Size: info.Size(), Name: info.Name()}
 			b, err := ioutil.ReadFile(filepath.Join(r.dir, info.Name()))
 			if err != nil {
 				panic(err)
@@ -1338,6 +1369,23 @@ func coqAPI(c apiCase) string {
 	return fmt.Sprintf("(%d, %d, %s, %s, %s, %s)", c.Sev, c.NArgs, vh.Bytes(c.FormatB), vh.Bytes(c.FmtB), vh.Z(c.ObsSev), vh.Bytes(c.ObsB))
 }
 
+// parseName reads program and time stamp off a log file name
+// (program.host.user.timestamp.pid.log) without the package's own pattern.
+func parseName(name string) (prog string, unix int64, ok bool) {
+	parts := strings.Split(name, ".")
+	if len(parts) != 6 || parts[5] != "log" {
+		return "", 0, false
+	}
+	t, err := time.Parse(log.FileTimeFormat, parts[3])
+	if err != nil {
+		return "", 0, false
+	}
+	if _, err := strconv.ParseUint(parts[4], 10, 63); err != nil {
+		return "", 0, false
+	}
+	return parts[0], t.Unix(), true
+}
+
 // ---------------------------------------------------------------------------
 // several loggers sharing one directory
 
@@ -1485,15 +1533,15 @@ func runMulti(rng *rand.Rand, calMain, calSec calib) (multiCase, bool) {
 			if !info.Mode().IsRegular() {
 				continue
 			}
-			det, err := log.ParseLogFilename(info.Name())
-			if err != nil {
+			prog, unix, okName := parseName(info.Name())
+			if !okName {
 				panic("unexpected file in the log directory: " + info.Name())
 			}
-			pi, ok := progIdx[det.Program]
+			pi, ok := progIdx[prog]
 			if !ok {
 				panic("file of an unknown program in the log directory: " + info.Name())
 			}
-			sf := snapFile{Stamp: det.Time / 1e9, Size: info.Size(), Name: info.Name()}
+			sf := snapFile{Stamp: unix, Size: info.Size(), Name: info.Name()}
 			b, err := ioutil.ReadFile(filepath.Join(dir, info.Name()))
 			if err != nil {
 				panic(err)
@@ -1867,6 +1915,17 @@ func main() {
 			codec = append(codec, mkCodecCaseVia(mode, "wf", es, formatAll(es), fmt.Sprintf("boundary sweep, offset %d", off)))
 		}
 	}
+	// headers of every length around 128 bytes, with many line digits
+	for fl := 80; fl <= 140; fl++ {
+		g := int64(0)
+		if fl%2 == 0 {
+			g = 17
+		}
+		e := log.Entry{Severity: log.Severity(1 + fl%4), Time: genTime(rng) / 1000 * 1000, Goroutine: g,
+			File: strings.Repeat("p/", fl/2)[:fl-4] + "f.go", Line: 123456789, Message: "after a long header: 7 x"}
+		es := []log.Entry{e, {Severity: log.Severity_INFO, Time: e.Time, Goroutine: 3, File: "n.go", Line: 1, Message: "next"}}
+		codec = append(codec, mkCodecCaseVia(readerModes[fl%len(readerModes)], "wf", es, formatAll(es), fmt.Sprintf("file name of %d bytes", len(e.File))))
+	}
 	// long streams: beyond bufio.Scanner's 4 KiB first buffer and its 64 KiB limit
 	bigs := []struct {
 		n    int
@@ -2141,7 +2200,14 @@ func main() {
 		}
 	}
 	nBigSeen, nOwnSeen := 0, 0
+	nUser, nThreshold := 0, 0
 	for _, h := range hist {
+		if strings.Contains(h.Note, "user ") {
+			nUser++
+		}
+		if strings.Contains(h.Note, "file threshold") {
+			nThreshold++
+		}
 		if h.Logger == "secondary-own-dir" {
 			nOwnSeen++
 		} else if strings.HasPrefix(h.Note, "entry of the size") {
@@ -2189,7 +2255,8 @@ func main() {
 		"probe": len(probe), "probe_kinds": probeKinds, "probe_roundtrip_failures": probeFail,
 		"local_zone_offset_s": zoneOff,
 		"hist":                len(hist), "hist_error": histErr, "hist_discarded_goid_glitch": discarded, "hist_log_ops": logs, "hist_gc_ops": gcs, "hist_files_at_end": rotations,
-		"calibration":             map[string]interface{}{"main": []int64{calMain.overhead, calMain.h}, "secondary": []int64{calSec.overhead, calSec.h}},
+		"calibration":          map[string]interface{}{"main": []int64{calMain.overhead, calMain.h}, "secondary": []int64{calSec.overhead, calSec.h}},
+		"hist_other_user_name": nUser, "hist_main_file_threshold_raised": nThreshold,
 		"hist_buffer_sized_entry": nBigSeen, "hist_own_directory_loggers": nOwnSeen, "api": len(api), "api_calls": apiCalls,
 		"hist_close_reopen_ops": closes, "hist_reopens_under_same_name": sameName, "codec_readers": readerCount, "codec_longest_stream": longest,
 		"multi": len(multi), "multi_log_ops": multiLogs, "multi_gc_ops": multiGcs,
